@@ -854,6 +854,10 @@ impl LightClientProtocol {
                 .start_number(real_start_number.pack())
                 .difficulty_boundary(start_total_difficulty.pack())
         } else {
+            // No block could be sampled if the total difficulty is not increased.
+            if start_total_difficulty == last_total_difficulty {
+                return None;
+            }
             let (difficulty_boundary, difficulties) = sampling::sample_blocks(
                 start_number,
                 &start_total_difficulty,
@@ -893,6 +897,10 @@ impl LightClientProtocol {
         let content = if last_number - start_number <= last_n_blocks {
             builder.difficulty_boundary(start_total_difficulty.pack())
         } else {
+            // No block could be sampled if the total difficulty is not increased.
+            if start_total_difficulty == last_total_difficulty {
+                return None;
+            }
             let (difficulty_boundary, difficulties) = sampling::sample_blocks(
                 start_number,
                 &start_total_difficulty,
